@@ -421,3 +421,74 @@ def unsequenced_side_effects(ctx, rule='no-unsequenced-modification', scope=None
     if n < min_instances:
         raise AnalysisBroken('only %d functions analysed (expected >= %d)' % (n, min_instances))
     return n
+
+
+def stored_ref_lifetime(ctx, rule='stored-matrix-reference-outlives-its-argument', min_instances=3):
+    """`const Eigen::Ref<const T>&` parameters accept anything convertible to T: when the argument is not directly mappable
+    (other storage order, an expression, a non-contiguous block) the caller's temporary Ref OWNS an evaluated copy, which dies at
+    the end of the call's full expression.  Ref's copy constructor does not copy that owned object.  A class that keeps a copy
+    of such a parameter in a Ref member therefore dangles whenever a temporary was needed.  Safe forms: the member is built
+    from the expression itself (parameter of type MatrixBase / SparseMatrixBase / EigenBase <Derived>), or every construction
+    site inside the library passes a member of the constructing object (whose lifetime covers the new object's)."""
+    def is_cref(t):
+        t = t.strip()
+        return t.startswith('const Eigen::Ref<const ')
+    n = 0
+    nctl = 0
+    for c in list(ctx.C.concrete()) + list(ctx.F.concrete()):
+        control = c.qname.startswith('SpectraControl::KeepsParameterRef')
+        if not c.d.get('ctor') or not ((c.cls or '').startswith('Spectra::') or control):
+            continue
+        recs = [r for r in (ctx.C if control else ctx.F).records.values() if r['qname'] == c.record and not r['dep']]
+        if not recs:
+            continue
+        ftypes = {f['name']: f['type'] for f in recs[0]['fields']}
+        for i in c.inits:
+            ft = ftypes.get(i['member'], '')
+            if not is_cref(ft) or i['expr'] < 0:
+                continue
+            n += 1
+            src = c.strip(c.nodes[i['expr']])
+            # look through the copy construction
+            pv = None
+            for y in c.walk(i['expr']):
+                if y['k'] == 'DeclRefExpr' and 'var' in y and y['var'] in c.params:
+                    pv = y['var']
+                    break
+            inst = '%s::%s' % (c.cls.replace('Spectra::', ''), i['member'])
+            if pv is None:
+                ctx.ok(rule, inst, c.qname, 'not initialised from a constructor parameter')
+                continue
+            pt = c.locals[pv]['type']
+            if not (is_cref(pt.replace(' &', '').strip()) and pt.rstrip().endswith('&')):
+                ctx.ok(rule, inst, c.qname, 'built from the argument expression itself (%s): the member owns any evaluated copy' % pt.split('<')[0])
+                continue
+            # parameter is a Ref by reference and the member copies it: every in-library construction must pass a live member
+            sites = []
+            for g in ctx.F.concrete():
+                for x in g.walk():
+                    if x['k'] in ('CXXConstructExpr', 'CXXTemporaryObjectExpr', 'CXXNewExpr') and (x.get('ctor_of') == c.cls or c.cls.split('::')[-1] in (x.get('alloc') or '')):
+                        sites.append((g, x))
+            pidx = c.params.index(pv)
+            good = bool(sites)
+            for g, x in sites:
+                args = g.call_args(x) if x['k'] != 'CXXNewExpr' else []
+                if x['k'] == 'CXXNewExpr':
+                    for y in g.walk(x['id']):
+                        if y['k'] in ('CXXConstructExpr', 'CXXTemporaryObjectExpr') and y['id'] != x['id']:
+                            args = g.call_args(y)
+                            break
+                a = g.strip(args[pidx]) if pidx < len(args) else None
+                if not (a is not None and a['k'] == 'MemberExpr' and a.get('mk') == 'field'):
+                    good = False
+            if control:
+                nctl += 0 if good else 1
+                continue
+            ctx.check(good, rule, inst, c.qname,
+                      'copied from a Ref parameter, but every construction site in the library passes a member of the constructing object' if good else
+                      'the member copies the parameter `%s` of type `const Ref<const ...>&`: for an argument that needs an evaluated temporary (row-major into column-major, '
+                      'an expression, a strided block) the temporary Ref owns the copy and dies with the call; the member then points at freed memory' % c.locals[pv]['name'])
+    if n < min_instances:
+        raise AnalysisBroken('only %d Ref members analysed (expected >= %d)' % (n, min_instances))
+    if nctl != 1:
+        raise AnalysisBroken('positive control for the stored-reference rule not matched (%d)' % nctl)
